@@ -281,7 +281,13 @@ macro_rules! moduli {
             // where products of residues cross a floating-point or integer width: around 2^26.5 (M^2 ~ 2^53), 2^27, 2^26,
             // 2^24 (f32), ceil(sqrt(2^31)), 2^16 - 1 and its largest prime, 10^8 + 7, 10^9 + 21 and 10^9 + 33 (primes)
             94906249, 94906265, 94906266, 94906267, 100000007, 134217727, 134217728, 134217689, 67108864, 67108859,
-            16777216, 16777213, 16777259, 46341, 46340, 46349, 65535, 65521, 1000000021, 1000000033
+            16777216, 16777213, 16777259, 46341, 46340, 46349, 65535, 65521, 1000000021, 1000000033,
+            // composites that pass for primes: Carmichael numbers (Fermat's little theorem holds for every unit) and strong
+            // pseudoprimes to the bases 2 / 2,3 / 2,3,5 (a modulus classified by a cheap primality test is classified wrongly)
+            561, 1105, 1729, 2465, 2821, 6601, 8911, 41041, 825265, 321197185, 2047, 3277, 4033, 1373653, 25326001,
+            161304001, 960946321, 1157839381,
+            // every power of two from 2^17 to 2^29 (2^16 and 2^30 are above), and 3 * 2^k
+            131072, 262144, 524288, 1048576, 2097152, 4194304, 8388608, 33554432, 268435456, 536870912, 805306368, 12582912
         }
     };
 }
